@@ -7,7 +7,7 @@ STATES = {"str": ["q0", "q1", "q2", "q3"], "int": [0, 1, 2, 3],
 STACK = {"str": ["Z", "X", "Y"], "int": [0, 1, 2], "reserved": ["#BOTTOMTOFINAL#", "#BOTTOMEMPTYS#", "#BOTTOMEMPTYS#0"],
          "tuple": ["Z", "X", "Y"]}
 INPUTS = ["a", "b"]
-VCS = ["str", "str", "int", "reserved", "tuple"]
+VCS = ["str", "str", "int", "reserved", "tuple", "inject"]
 
 
 def random_case(rng, max_states=3, max_stack=2, max_trans=6, max_push=3, vcs=None):
@@ -26,14 +26,25 @@ def random_case(rng, max_states=3, max_stack=2, max_trans=6, max_push=3, vcs=Non
          "zstart": 0, "finals": finals, "vc": rng.choice(vcs or VCS)}
     if rng.random() < 0.5:
         c["shuffle"] = rng.randrange(1 << 30)
+    if c["vc"] == "inject":
+        c["perm"] = rng.sample(range(4), 4)
+        c["zperm"] = rng.sample(range(4), 4)
     return c
 
 
 def sval(c, i):
+    if c["vc"] == "inject":
+        from vf.values import K
+        perm = c.get("perm") or [0, 1, 2, 3]
+        return K("q%d" % i, perm[i % len(perm)])
     return STATES[c["vc"]][i]
 
 
 def zval(c, i):
+    if c["vc"] == "inject":
+        from vf.values import K
+        perm = c.get("zperm") or [0, 1, 2, 3]
+        return K("Z%d" % i, perm[i % len(perm)])
     return STACK[c["vc"]][i]
 
 
